@@ -496,7 +496,7 @@ func main() {
 			{[]string{"date.DefaultParser(0)", "date.DefaultParser(RuleDisableBasic)"}, "0129-", q(6, 8), []string{"2024-02-29", "20240229", "2023-02-29", "12345-01-01"}},
 			{[]string{"roman.DefaultParser(0)", "roman.DefaultParser(RuleDisableEmptyAsZero)", "roman.Valid"}, "IVXMivxm", q(5, 6), []string{"MCMXCIV", "mmxxiv"}},
 			{[]string{"sem.Parse", "sem.ParseVersion", "sem.ParseTag", "sem.DefaultParser(RuleDisableTag)"}, "01a-.+v", q(6, 7), []string{"1.2.3-rc.1+b", "v1.2.3", "18446744073709551616.0.0"}},
-			{[]string{"size.DefaultParser(0)", "size.DefaultParser(RuleDisableUnit)", "size.DefaultParser(JSON forms)"}, "01 _kBKi\"{", q(5, 6), []string{"1 024 KiB", `{"value":1,"unit":"B"}`, `{"value":1,"unit":"B","x":1}`, `"1KiB"`, `{"value":1}`, `17EiB`}},
+			{[]string{"size.DefaultParser(0)", "size.DefaultParser(RuleDisableUnit)", "size.DefaultParser(JSON forms)"}, "01 _kBKi\"{-.", q(5, 6), []string{"1 024 KiB", `{"value":1,"unit":"B"}`, `{"value":1,"unit":"B","x":1}`, `"1KiB"`, `{"value":1}`, `17EiB`}},
 			{[]string{"uu.DefaultParser(0)", "uu.DefaultParser(all rules)"}, "0aF-:", q(4, 5), []string{"ed7059f3-6fc0-4b0c-9b7a-2ea5a0b4b8f1", "URN:uuid:ED7059F3-6FC0-4B0C-9B7A-2EA5A0B4B8F2", "urn:uuid:ed7059f3-6fc0-4b0c-9b7a-2ea5a0b4b8f1"}},
 		}
 		for _, u := range unis {
